@@ -120,11 +120,13 @@ type Violation struct {
 }
 
 type World struct {
-	G       *Genesis
-	ChainID string
-	H       int64 // last committed height
-	Params  *Params
-	pending *Params
+	// senders of contract-path txs that failed on the node although the reference EVM executed them (count)
+	refOKButFailed map[string]int
+	G              *Genesis
+	ChainID        string
+	H              int64 // last committed height
+	Params         *Params
+	pending        *Params
 
 	Accts     map[string]*MAcct
 	Delegs    map[string]*MDeleg
@@ -635,6 +637,16 @@ func (w *World) applyProposals(applied []*MProposal) {
 		return
 	}
 	w.Feat["proposal_applied"] += len(applied)
+	for _, pr := range applied {
+		if pr.Major >= 0 && pr.Major < len(pr.Options) {
+			for _, d := range hostileDocs {
+				if d == string(pr.Options[pr.Major]) {
+					w.Feat["hostile_option_document_applied"]++
+					break
+				}
+			}
+		}
+	}
 	// The statement does not order several proposals applied in one block.
 	// Candidates: every fold order of the merges, and "one of them over the old set".
 	// The model keeps the list; Compare picks whichever matches (and fails if none).
